@@ -416,3 +416,10 @@ MUTANTS += [
         (PU, "    for link in links:\n        components.append(_one_link_to_puml(link, options))",
              "    for text in sorted({_one_link_to_puml(link, options) for link in links} if len(links) > 40 else [_one_link_to_puml(link, options) for link in links]):\n        components.append(text)")]),
 ]
+
+MUTANTS += [
+    dict(id="c18_revert_fix_d22", props=["C18"], edits=[
+        (SG, "    def __call__(*args, **kwargs):\n        cls, args = args[0], args[1:]\n        if cls not in cls._TrueSingleton", "    def __call__(cls, *args, **kwargs):\n        if cls not in cls._TrueSingleton")]),
+    dict(id="c17_revert_fix_d22", props=["C17"], edits=[
+        (SG, "        def __call__(*args, **kwargs):\n            cls, args = args[0], args[1:]\n", "        def __call__(cls, *args, **kwargs):\n")]),
+]
